@@ -50,7 +50,10 @@ CLAIM = dict(
          "arbitrary plain context data); markup_sites_mapped (every Markup(...) call of filters/utils/runtime/ext/nodes/environment.py and "
          "every emitted code string mentioning Markup in compiler.py, READ from the source on every run, is one of the 29 sites the model "
          "has a clause for — a new site breaks the pin); select_autoescape_spec (no name -> default_for_string; otherwise only the "
-         "lower-cased name matters, an enabled-extension suffix wins, then a disabled one, then default). Tie: random terms with metacharacter-laden data and literals spelled through set blocks, macros, "
+         "lower-cased name matters, an enabled-extension suffix wins, then a disabled one, then default); region_partial / region_clean "
+         "(lexical {% autoescape %} regions decide the escaping of everything inside them PROVIDED no {% block %} tag sits in a region whose "
+         "mode differs from the template-level mode; the unrestricted statement AutoescRegion.RegionStatement is refuted on the model in "
+         "Findings/F20.lean). Tie: random terms with metacharacter-laden data and literals spelled through set blocks, macros, "
          "call blocks, imported macros, includes, super(), with, for, rendered under static / select_autoescape / {% autoescape true %} / "
          "runtime-decided {% autoescape flag %} and compared with the model; ALL built-in filters x receivers (str, Markup, list, dict, "
          "nested, int) x argument shapes (data-controlled), string and Markup methods, operators, scanned for raw M characters (urlize, "
@@ -110,8 +113,10 @@ def run(ctx, res):
     scan = run_scan(ctx, res, jinja2)
     probe = run_known_probe(ctx, res, jinja2)
     sel = run_select(ctx, res, jinja2)
+    reg = run_regions(ctx, res, jinja2)
     res.coverage.update({
-        "evaluations": terms["renders"] + scan["renders"] + probe + sel,
+        "evaluations": terms["renders"] + scan["renders"] + probe + sel + reg["renders"],
+        "regions": reg,
         "select_autoescape_cases": sel,
         "distinct_nontrivial": terms["nontrivial"] + scan["nontrivial"],
         "rule": ("(1) random well-sorted terms of Model/Autoesc.lean with all constructors except wordwrap, depth 2-4/5, 1-3 context strings "
@@ -294,6 +299,70 @@ def run_select(ctx, res, jinja2):
     return len(jobs)
 
 
+def run_regions(ctx, res, jinja2):
+    """lexical {% autoescape %} regions and {% block %} tags against Model/AutoescRegion.lean: `render` transcribes the engine
+    (block bodies use the template-level mode), `renderSpec` is what the property asks for"""
+    rng = ctx.rng("regions")
+
+    def gen(depth):
+        r = rng.random()
+        if depth <= 0 or r < 0.25:
+            return ("data", rng.choice(DATA)) if rng.random() < 0.7 else ("text", rng.choice(TEXTS))
+        if r < 0.5:
+            return ("seq", gen(depth - 1), gen(depth - 1))
+        if r < 0.78:
+            return ("region", rng.random() < 0.5, gen(depth - 1))
+        return ("block", gen(depth - 1))
+
+    def enc(b):
+        if b[0] in ("data", "text"):
+            return [Atom(b[0]), b[1]]
+        if b[0] == "region":
+            return [Atom("region"), b[1], enc(b[2])]
+        return [Atom(b[0])] + [enc(x) for x in b[1:]]
+
+    def spell(b, st):
+        if b[0] == "text":
+            return b[1]
+        if b[0] == "data":
+            st["n"] += 1
+            st["kw"][f"d{st['n']}"] = b[1]
+            return "{{ d%d }}" % st["n"]
+        if b[0] == "seq":
+            return spell(b[1], st) + spell(b[2], st)
+        if b[0] == "region":
+            return "{% autoescape " + ("true" if b[1] else "false") + " %}" + spell(b[2], st) + "{% endautoescape %}"
+        st["n"] += 1
+        return "{% block b" + str(st["n"]) + " %}" + spell(b[1], st) + "{% endblock %}"
+
+    reqs, jobs = [], []
+    for _ in range(ctx.pick(300, 3000)):
+        b, tmode = gen(rng.randrange(1, 5)), rng.random() < 0.5
+        st = {"n": 0, "kw": {}}
+        src = spell(b, st)
+        try:
+            out = jinja2.Environment(autoescape=tmode).from_string(src).render(**st["kw"])
+        except Exception as e:  # noqa
+            out = f"raised:{type(e).__name__}:{e}"
+        reqs.append([Atom("autoesc"), Atom("region"), tmode, enc(b)])
+        jobs.append((src, tmode, st["kw"], out))
+    known = agree = 0
+    for (src, tmode, kw, out), rep in zip(jobs, core.driver_batch(reqs)):
+        m_render, m_spec, ok = rep[1]
+        agree += ok is True
+        if out == m_spec:
+            continue
+        replay = {"src": src, "data": kw, "autoescape": tmode, "out": out}
+        if out == m_render:
+            known += 1
+            res.violate("C15:autoescape-region-around-block", f"Environment(autoescape={tmode}): {src!r} with {kw} renders {out!r}; the innermost "
+                        f"autoescape region asks for {m_spec!r} (a block body follows the template-level mode)", replay)
+        else:
+            res.violate("C15:region:other", f"Environment(autoescape={tmode}): {src!r} with {kw} renders {out!r}; region rule {m_spec!r}, "
+                        f"engine model {m_render!r}", replay)
+    return {"renders": len(jobs), "blocks_agree": agree, "known_defect_instances": known}
+
+
 def T_wire_ok(s):
     return not any(0xD800 <= ord(c) <= 0xDFFF for c in s)
 
@@ -335,5 +404,5 @@ def replay(ctx, case):
         except Exception as e:  # noqa
             return {"src": src, "raised": f"{type(e).__name__}: {e}"}
     if "src" in c:
-        return {"render": jinja2.Environment(autoescape=False).from_string(c["src"]).render(**c["data"])}
+        return {"render": jinja2.Environment(autoescape=c.get("autoescape", False)).from_string(c["src"]).render(**c["data"])}
     return c
